@@ -364,6 +364,64 @@ class EvalFAtAllNodes(Contract):
         yield 'canary:f1_unchanged', veq(st.L.f[1], st.L.f[0])
 
 
+def _it_check_contract():
+    """controller_ParaDiag_nonMPI.it_check on an arbitrary block state (harness and expected stopping formula of the C07 contract of
+    controller_nonMPI.it_check): ParaDiag runs with all-to-done, so EVERY step of the block gets the conjunction of all steps' convergence decisions
+    (a block stops only when all its steps are converged -- for both Jacobian modes); not-done steps count one more iteration and go to IT_PARADIAG,
+    done steps compute their end point before post_step"""
+    from contracts.C07_block import ItCheck, setup_block, idx, hooks_of
+    from vc.sym import And, Iff
+    from vc.contract import seq
+    from pySDC.implementations.controller_classes.controller_ParaDiag_nonMPI import controller_ParaDiag_nonMPI as PD
+
+    class ItCheckParaDiag(ItCheck):
+        prop = 'C15'
+        name = 'controller_ParaDiag_nonMPI.it_check'
+        target = ('pySDC/implementations/controller_classes/controller_ParaDiag_nonMPI.py', 'controller_ParaDiag_nonMPI.it_check')
+
+        def instances(self, tier):
+            return [dict(n=n, d=0, nlevels=1, mssdc_jac=False, all_to_done=True, average_jacobian=aj) for n in ((1, 2, 3) if tier == 'quick' else (1, 2, 3, 4)) for aj in (True, False)]
+
+        def build(self, inst, mk):
+            st = setup_block(mk, inst, 'IT_CHECK', flags=('done', 'force_done', 'restart'))
+            object.__setattr__(st.c.params, 'average_jacobian', inst['average_jacobian'])
+            st.call = lambda: PD.it_check(st.c, st.running)
+            return st
+
+        def post(self, st, old, result, exc):
+            tr, run, k = st.trace, st.running, st.k
+            yield 'returns_normally', exc is None
+            if exc is not None:
+                return
+            conv = [st.cc.conv.get(('done', S.status.slot)) for S in run]
+            yield 'convergence_control_called_for_every_running_step', all(c is not None for c in conv)
+            if any(c is None for c in conv):
+                return
+            allc = And(*conv)
+            for S in run:
+                p = S.status.slot
+                yield f'block_stops_only_when_all_steps_are_converged[{p}]', Iff(S.status.done, allc)
+                isdone = bool(S.status.done) if not isinstance(S.status.done, bool) else S.status.done
+                kpos = bool(k > 0)
+                yield f'iter_increment_iff_not_done[{p}]', seq(S.status.iter, k if isdone else k + 1)
+                want_hooks = (['post_iteration'] if kpos else []) + (['post_step'] if isdone else ['pre_iteration'])
+                yield f'hooks_grammar[{p}]', hooks_of(tr, p) == want_hooks
+                if isdone:
+                    ce, ps = idx(tr, ('compute_end_point', p, 0)), idx(tr, ('hook', 'post_step', p, 0))
+                    yield f'stage_done_and_end_point_before_post_step[{p}]', S.status.stage == 'DONE' and len(ps) == 1 and any(i < ps[0] for i in ce)
+                else:
+                    yield f'next_stage_is_another_ParaDiag_iteration[{p}]', S.status.stage == 'IT_PARADIAG'
+            yield 'buffers_reset_at_end', bool(tr) and tr[-1] == ('cc', 'reset_buffers_nonMPI', None)
+
+        def canary(self, st, old, result, exc):
+            if len(st.running) > 1:
+                yield 'canary:first_step_decides', Iff(st.running[-1].status.done, st.cc.conv.get(('done', st.running[0].status.slot)))
+            else:
+                yield 'canary:never_done', st.running[0].status.done is False
+
+    return ItCheckParaDiag
+
+
 def _run_contracts():
     # block scheduling of the ParaDiag run (start time, seeding of blocks): the C06 loop-cut contracts of controller_ParaDiag_nonMPI.run
     from contracts.C06_paradiag import RunEntryPD, RunBodyPD, RunExitPD
@@ -427,5 +485,5 @@ def check_transform_roundtrip_and_set_G_inv(tier, seed):
                  'n_steps 1..16 (quick: 1,2,4,8,16) x alpha over ten decades; 3 successive set_G_inv calls, M = 2, 3')
 
 
-CONTRACTS = [ApplyMatrix, EvalFAtAllNodes] + _run_contracts()
+CONTRACTS = [ApplyMatrix, EvalFAtAllNodes, _it_check_contract()] + _run_contracts()
 EXTRAS = [check_helpers, check_sweeper_symbolic, check_iteration_order, bounded_runs, check_transform_roundtrip_and_set_G_inv]
